@@ -113,20 +113,22 @@ class Reader(object):
             # just skip other blocks
 
         if idb is None:
-            raise ValueError('IDB not found')
-
-        # set timestamp resolution and offset
-        self._divisor, self._tsoffset = self._ts_params(idb)
-
-        if idb.linktype in dpng.dltoff:
-            self.dloff = dpng.dltoff[idb.linktype]
-        else:
+            # a section without packet blocks needs no interface description: a capture without packets
+            self._divisor, self._tsoffset = float(1e6), 0
             self.dloff = 0
+        else:
+            # set timestamp resolution and offset
+            self._divisor, self._tsoffset = self._ts_params(idb)
+
+            if idb.linktype in dpng.dltoff:
+                self.dloff = dpng.dltoff[idb.linktype]
+            else:
+                self.dloff = 0
 
         self.__f.seek(0)
 
         self.idb = idb
-        self.snaplen = idb.snaplen
+        self.snaplen = idb.snaplen if idb is not None else 0
         self.filter = ''
         self.__iter = iter(self)
 
